@@ -166,7 +166,8 @@ class C17(Check):
                     ng = len(arr)
                     if tier == "quick" and ng == 1:
                         continue
-                    for decs in itertools.product(decor if tier == "thorough" else [decor[0], decor[1], decor[2], decor[4], decor[6], decor[7], decor[9]], repeat=ng):
+                    quick_decor = [decor[0], decor[1], decor[2], decor[4], decor[6], decor[7], decor[9]] if ng < 3 else [decor[0], decor[2], decor[4], decor[7], decor[9]]
+                    for decs in itertools.product(decor if tier == "thorough" else quick_decor, repeat=ng):
                         n += 1
                         if only is None and n % chunks != chunk:
                             continue
